@@ -694,6 +694,16 @@ func (ex *Exec) applyContract(st *State, c *ssa.Call, con *Contract, bindings []
 		var cs []Term
 		for _, ls := range locsets {
 			ft := frameTarget{Fam: ls.Fam, Obj: ls.Obj}
+			if ls.Region {
+				ok := false
+				for _, mine := range ex.assign {
+					if mine.Fam == ls.Fam && mine.Region {
+						ok = true
+					}
+				}
+				cs = append(cs, boolLit(ok))
+				continue
+			}
 			if ls.Ranged {
 				lo, hi := ls.Lo, ls.Hi
 				ft.Lo, ft.Hi = &lo, &hi
@@ -721,6 +731,10 @@ func (ex *Exec) applyContract(st *State, c *ssa.Call, con *Contract, bindings []
 			st.updateFamWhere(f, func(p []Term) Term {
 				var cs []Term
 				for _, ls := range lss {
+					if ls.Region {
+						cs = append(cs, tTrue)
+						continue
+					}
 					if isElem {
 						_, abs := elemAbs(p)
 						c := eq(p[0], ls.Obj)
